@@ -368,11 +368,18 @@ func hostileBytes(seed uint64, side string, items []HRec, b *built, p *ScriptPla
 				base = hrrRecord(core.Mix(seed, "hrr", i))
 			}
 			out = append(out, mutateRecord(r, base, []HMut{{Kind: []string{"flip", "trunc", "trunc-fix", "u16at", "hslen", "reclen", "append"}[it.A%7], A: r.IntN(1 << 16), B: r.IntN(1 << 16)}})...)
-		case "hello2", "hellomut":
+		case "hello2", "hellomut", "hello2less":
 			if b == nil || b.sealer == nil {
 				continue
 			}
 			hc := &histClient{p: p, b: b, seed: seed, n: i, sendSeq: 1}
+			if it.Kind == "hello2less" {
+				// a retried hello whose inner hello has one extension fewer
+				if rec, _, _, _, err := hc.hello2("hello2-ok", 2+4*it.A, true); err == nil {
+					out = append(out, rec...)
+				}
+				continue
+			}
 			kind := "hello2-ok"
 			if it.Kind == "hello2" && it.A%3 == 2 {
 				kind = "hello2-nover"
@@ -695,6 +702,8 @@ func genC08(seed uint64, idx int) *Plan {
 		h.Base.Compress = false
 		h.Base.Mutations = []Mutation{{Kind: "inner-edge", A: idx / 10}}
 		h.NoKeys = false
+		// (should the front let it through: the backend answers all the same)
+		h.Back = []HRec{{Kind: "sh"}}
 		if (idx/10)%2 == 1 {
 			h.Base.Mutations = nil
 			h.BackFirst = true
@@ -766,6 +775,14 @@ func genC08(seed uint64, idx int) *Plan {
 		for n := 2000 + r.IntN(3000); n > 0; n-- {
 			h.Tail = append(h.Tail, HRec{Kind: "rec", Type: []byte{22, 20, 22, 21}[r.IntN(4)], Len: 0})
 		}
+		return &Plan{Kind: "hostile", Seed: seed, Hostile: h}
+	}
+	if idx%25 == 2 && !b.NoECH && !b.Grease {
+		// accepted hello, HelloRetryRequest, then a retried hello with fewer extensions
+		h.NoKeys, h.BackFirst = false, true
+		h.Base.ExtraIn = max(h.Base.ExtraIn, 3)
+		h.Back = []HRec{{Kind: "hrr"}}
+		h.Tail = []HRec{{Kind: "hello2less", A: idx / 25}, {Kind: "rec", Type: 23, Len: 10}}
 		return &Plan{Kind: "hostile", Seed: seed, Hostile: h}
 	}
 	if idx%25 == 13 && !b.NoECH && !b.Grease {
